@@ -221,6 +221,7 @@ class POXCore (EventMixin):
     self.components = {'core':self}
 
     self._go_up_deferrals = set()
+    self._go_up_stage = 0 # 0: GoingUp not delivered yet, 1: waiting for deferrals, 2: Up raised
 
     self._openflow_wanted = False
     self._handle_signals = handle_signals
@@ -412,6 +413,7 @@ class POXCore (EventMixin):
 
     self._add_signal_handlers()
 
+    self._go_up_stage = 1
     if not self._go_up_deferrals:
       self._goUp_stage2()
 
@@ -428,7 +430,7 @@ class POXCore (EventMixin):
       if o not in self._go_up_deferrals:
         raise RuntimeError("This deferral has already been executed")
       self._go_up_deferrals.remove(o)
-      if not self._go_up_deferrals:
+      if not self._go_up_deferrals and self._go_up_stage == 1:
         log.debug("Continuing to go up")
         self._goUp_stage2()
 
@@ -436,6 +438,7 @@ class POXCore (EventMixin):
 
   def _goUp_stage2 (self):
 
+    self._go_up_stage = 2
     self.raiseEvent(UpEvent())
 
     self._waiter_notify()
